@@ -23,6 +23,9 @@ OBLIGATION_KINDS = [
     ("index out of bounds", "bounds"),
     ("possible out of bounds", "bounds"),
     ("unreachable code may be reached", "assertion"),
+    ("unable to prove post-condition of closure", "postcondition"),
+    ("unable to prove assertion", "assertion"),
+    ("unable to prove precondition", "precondition"),
 ]
 # anything else at `error` level means the verifier could not process the text: undecided
 RESOURCE = ("Resource limit (rlimit) exceeded", "rlimit", "timed out", "Timeout")
